@@ -2817,7 +2817,6 @@ func e2EmptyGuard(n *e2Node) []*e2Node {
 	return full
 }
 
-
 // freshConstructor: an unexported function of the module without loops or calls whose single result is, on every return,
 // an object allocated in it (possibly boxed in an interface), and whose only stores go into those objects —
 // `func newDUID(typ DUIDType) DUID { switch typ { case …: return &DUIDLLT{} … default: return &DUIDOpaque{Type: typ} } }`.
@@ -2893,7 +2892,6 @@ func freshConstructor(f *ssa.Function) bool {
 	freshCtorMemo[f] = res
 	return res
 }
-
 
 // delegatedThenNil: `if err := d.FromBytes(rest); err != nil { return d, err }; return d, nil` is
 // `return d, d.FromBytes(rest)`: the return of a nil error sits directly on the nil edge of a test of the error of a
